@@ -46,6 +46,8 @@ pub struct GenCfg {
     pub pure_functions: bool,
     /// more and longer threads
     pub thread_boost: bool,
+    /// declare `VAR gd = -> kz` (a divert-target value the host can read)
+    pub divert_global: bool,
 }
 
 impl GenCfg {
@@ -84,6 +86,7 @@ impl GenCfg {
             probe_knot: false,
             pure_functions: false,
             thread_boost: false,
+            divert_global: false,
         }
     }
     /// everything, including the nondeterministic-looking features (for lockstep oracles)
@@ -204,6 +207,9 @@ impl<'a> Builder<'a> {
                 p.globals.push((name.clone(), Expr::Str(w)));
                 self.meta.str_globals.push(name);
             }
+        }
+        if cfg.divert_global {
+            p.globals.push(("gd".into(), Expr::Target("kz".into())));
         }
         if cfg.lists {
             let nl = 1 + self.rng.below(2);
@@ -369,7 +375,9 @@ impl<'a> Builder<'a> {
                 body,
                 stitches,
             });
-            self.meta.labels.push(plan.name.clone());
+            if !(cfg.pure_functions && plan.kind == KnotKind::Function) {
+                self.meta.labels.push(plan.name.clone());
+            }
         }
         p
     }
